@@ -292,7 +292,16 @@ impl<R: Round> Context<R> {
             let context = Context::<R>::new(work_precision);
             (0, 0, FBig::new(context.repr_round_ref(x).value(), context))
         } else {
-            work_precision = self.precision + series_guard_digits + pow_guard_digits;
+            // the quotient s = floor(x / log(B)) has about log_B(|x|) digits, which are cancelled
+            // in r = x - s * log(B): they have to be carried by x and log(B) in addition
+            let magnitude = x.log2_est();
+            let magnitude_digits = if magnitude > 0. {
+                (magnitude / B.log2_est()) as usize + 1
+            } else {
+                0
+            };
+            work_precision =
+                self.precision + series_guard_digits + pow_guard_digits + magnitude_digits;
             let context = Context::<R>::new(work_precision);
             let x = FBig::new(context.repr_round_ref(x).value(), context);
             let logb = context.ln_base::<B>();
